@@ -61,6 +61,12 @@ func main() {
 				cfg.Inline = func(f *ssaFunction) bool { return true }
 			case "none":
 				cfg.Inline = func(f *ssaFunction) bool { return f.Parent() != nil }
+			case "strategy":
+				stratProgram = P
+				cfg = stratCfg()
+			case "strategy2":
+				stratProgram = P
+				cfg = stratCfg(2)
 			case "authn":
 				cfg.Inline = authnInline(P)
 				cfg.ForceInline = func(f *ssaFunction) bool { return f.String() == pkgJWT+".ParseWithClaims" }
